@@ -345,11 +345,39 @@ class CallMixin:
                 if r is not None:
                     return Val(const=r, deps=deps)
             return Val(deps=deps)
+        if name == "getattr" and len(args) in (2, 3) and not kwargs and args[1].has_const and \
+                isinstance(args[1].const, str):
+            # getattr(x, "name"[, default]) with a literal name is an ordinary attribute read (with a fallback)
+            base, attr = args[0], args[1].const
+            default = args[2] if len(args) == 3 else None
+
+            def has(r):
+                o = self.obj(r)
+                pc = self.prog.classes.get(o.cls) if o.cls else None
+                if attr in o.fields:
+                    return True
+                if pc is None:
+                    return None
+                if pc.resolve(attr) is not None:
+                    raise AnalysisError("getattr of method %s.%s at %s is not supported" %
+                                        (pc.name, attr, self.prog.loc(self.frame.fn, node)))
+                return True if (attr in self.known_attrs(pc) or pc.class_attr(attr)[1] is not None) else False
+            status = {r: has(r) for r in base.refs}
+            if default is None:
+                return self.read_field(base, attr, node).add_deps(deps)
+            vals = []
+            have = frozenset(r for r, h in status.items() if h is not False)
+            if have or base.locs:
+                vals.append(self.read_field(base.with_(refs=have), attr, node, quiet=True))
+            if not base.refs or any(h is not True for h in status.values()) or base.locs:
+                vals.append(default)
+            return join_all(vals).add_deps(deps)
         if name == "len" and args:
             a = args[0]
             if a.extra is not None and a.extra[0] == "tuple":
                 return Val(const=len(a.extra[1]), deps=deps)
-            return Val(deps=strip_obs(deps), tags=["len"])
+            # the cardinality of a container is a dependence of its own kind (not on keys, not on contents)
+            return Val(deps=strip_obs(deps) | frozenset(("card", r) for r in a.refs), tags=["len"])
         if name == "callable" and args and args[0].has_const and args[0].const is None:
             return Val(const=False, deps=deps)
         if name == "bool" and args and args[0].has_const:
